@@ -104,3 +104,26 @@ def run_fibers(ctx, rng, n):
         if not ok:
             ctx.violation(dict(kind="ft-model", op=req, lean=a, minifiber=dict(keys=keys, groups=sorted(groups.items())),
                                obligation="FT occupancy model (leaderKeys / groupOf) = minifiber splitEqual / splitNonUniform"), False)
+
+
+def run_project(ctx, rng, n):
+    """project + prune on one fiber, dyadic strides: exact arithmetic (Lean) vs float evaluation (minifiber)"""
+    reqs, expect = [], []
+    for _ in range(n):
+        a = rng.choice([1, 2, 4, 8])
+        r = rng.randint(0, 9)
+        ext = rng.randint(1, 30)
+        ws = sorted(rng.sample(range(ext), rng.randint(0, min(ext, 12))))
+        lo, hi = 0, rng.randint(1, 12)
+        f = minifiber.Fiber(ws, [minifiber.Payload(1) for _ in ws])
+        g = f.project(trans_fn=lambda w: 1 / a * w + -r / a, interval=(lo, hi)).prune(trans_fn=lambda i, c, p: c % 1 == 0)
+        reqs.append({"op": "ft_project", "coords": ws, "a": a, "r": r, "lo": lo, "hi": hi})
+        expect.append([int(c) for c in g.coords])
+    for req, want, ans in zip(reqs, expect, common.lean_batch(reqs)):
+        if "error" in ans:
+            raise common.InternalError("lean: " + ans["error"])
+        ok = ans["coords"] == want
+        ctx.ob(ok); ctx.stat("ft_project")
+        if not ok:
+            ctx.violation(dict(kind="ft-model", op=req, lean=ans["coords"], minifiber=want,
+                               obligation="exact projection (Props/C04.project_*) = minifiber project+prune for dyadic strides"), False)
